@@ -71,9 +71,12 @@ class A(dict):
 
 
 class LoopSpec:
-    def __init__(self, invariant, modifies=None, havoc_inplace=(), havoc_heap=(), heap_types=None):
+    def __init__(self, invariant, modifies=None, havoc_inplace=(), havoc_heap=(), heap_types=None, bound_by_first_iteration=None):
         self._inv = invariant
         self.modifies = modifies
+        # {name: factory(cx)} — locals that are unbound at loop entry and assigned by the body of a `while` loop whose
+        # condition holds at entry (an obligation): after the loop they are bound to some value of that shape
+        self.bound_by_first_iteration = dict(bound_by_first_iteration or {})
         self.havoc_inplace = tuple(havoc_inplace)
         self.havoc_heap = tuple(havoc_heap)
         self.heap_types = heap_types or {}
